@@ -143,3 +143,21 @@ Example C05_example :
     [Build_cm2 1 3 0 (9#2); Build_cm2 1 3 3 (3#2); Build_cm2 (1#2) 0 3 5] /\
   map tpr (one_vs_all [[1; 3; 0]; [0; 1; 3]; [0; 0; 1#2]] 3) <> map tpr (one_vs_all (permute [[1; 3; 0]; [0; 1; 3]; [0; 0; 1#2]] [1; 2; 0]%nat) 3).
 Proof. exact c05_example_proof. Qed.
+
+(* ---------- narrow integer dtypes (open known finding, DESIGN 12.3): the property quantifies over "all non-negative integer
+   or float matrices"; a matrix held in uint8 / uint16 is one.  Model/NarrowInt.v writes the wrap of the two-cell sums into
+   the model explicitly. ---------- *)
+From SA Require Model.NarrowInt.
+Section NarrowInt.
+Import NarrowInt.
+Local Open Scope Z_scope.
+(* one-vs-all on the uint8 matrix [[200,100,3],[50,200,7],[1,2,250]]: class 0 gets TN = 459 mod 256 = 203 and the 2x2 matrix
+   does not conserve the population 813 (open known finding C05; replayed on the implementation by the check) *)
+Theorem C05_narrow_int_refuted : exists M, Forall (Forall (fun v => 0 <= v < 2 ^ 8)) M /\
+  tn (ova_u 8 M 0) = 203 /\ pop_u (ova_u 8 M 0) <> total M.
+Proof.
+  exists [[200; 100; 3]; [50; 200; 7]; [1; 2; 250]].
+  split; [repeat constructor; lia|]. split; [reflexivity|vm_compute; discriminate].
+Qed.
+Print Assumptions C05_narrow_int_refuted.
+End NarrowInt.
